@@ -366,6 +366,10 @@ func runC07(c *kit.Ctx) {
 		c.Unk(s.fn, "slot-store", s.store.Pos(), "store into a result slot with an index of unrecognised provenance ("+kit.Path(idx)+")")
 	}
 
+	if !c.Frozen {
+		embed(c, "R6", "every call handed to a connection gets a response or an error of its own (the rules of C03, run as one rule here)", 30, runC03)
+	}
+
 	// ---- R5 ---------------------------------------------------------------
 	c.StartRule("R5", "what is stored into a slot is a real outcome; every queued call gets one", 4)
 	unbufferedHandoff(c)
@@ -584,7 +588,14 @@ func successFlag(c *kit.Ctx, sb *ssa.Function, batchParam *ssa.Parameter) {
 					if l, ok := u.X.(*ssa.UnOp); ok && l.Op == token.MUL {
 						if a, ok := l.X.(*ssa.Alloc); ok {
 							sticky = a
-							c.OK(f, "flag-store", s.Pos(), "allOK = !"+a.Comment+" (checked below: sticky across rounds)")
+							// the optimistic value only stands for the round that follows: no way from here
+							// to a return without going round the loop (where failures clear it again)
+							e := kit.PathFrom(s, kit.PathQuery{
+								Target: func(x ssa.Instruction) bool { _, isRet := x.(*ssa.Return); return isRet },
+								Stop:   func(x ssa.Instruction) bool { return x.Block() == hdr },
+							})
+							c.Check(e == nil && f == sb, f, "flag-store", s.Pos(), "allOK = !"+a.Comment+" right before the next round (checked below: sticky across rounds)",
+								"allOK is reset to 'no fatal error seen' at a point from which SendBatch can still return without another round (e.g. when the back-off wait is cancelled): it reports success although calls still carry their retryable errors: "+c.BlockPath(e))
 							return
 						}
 					}
